@@ -8,6 +8,7 @@ package main
 import (
 	"fmt"
 	"math"
+	"strings"
 	"time"
 
 	"github.com/PowerDNS/lightningstream/config"
@@ -21,6 +22,7 @@ type retKey struct {
 	Days    float32
 	C       int64
 	Enabled bool
+	Once    bool // only_once: a single pass; the stale-marker rule is the same for it
 }
 
 var retSyncers = map[retKey]*syncer.Syncer{}
@@ -29,7 +31,7 @@ func retSyncer(k retKey) (*syncer.Syncer, error) {
 	if s, ok := retSyncers[k]; ok {
 		return s, nil
 	}
-	c := config.Config{Instance: "a", LMDBs: map[string]config.LMDB{}}
+	c := config.Config{Instance: "a", LMDBs: map[string]config.LMDB{}, OnlyOnce: k.Once}
 	c.Sweeper = config.Sweeper{Enabled: k.Enabled, RetentionDays: k.Days, RetentionLoadCutoffDuration: time.Duration(k.C)}
 	lc := config.LMDB{}
 	c.LMDBs["db"] = lc
@@ -57,7 +59,7 @@ func retReal(days float32, c int64, t int64, enabled bool) (retObs, error) {
 	o := retObs{Days: days, R: int64(R), C: c, T: t, Enabled: enabled,
 		RMC:   int64(sw.RetentionDurationMinusCutoff()),
 		Sweep: uint64(header.TimestampFromTime(now.Add(-R)))}
-	s, err := retSyncer(retKey{days, c, enabled})
+	s, err := retSyncer(retKey{days, c, enabled, (t+c)%2 == 0})
 	if err != nil {
 		return o, err
 	}
@@ -113,6 +115,18 @@ func areaRetention(r *Rng, n int, dir string) (*AreaOut, error) {
 			hist(out.Hist, "c>R")
 		default:
 			hist(out.Hist, "0<c<=R")
+		}
+	}
+	// RetentionDuration itself (an input of the model) against an independent computation: retention_days is a
+	// number of DAYS, fractions included (float32 precision: 2^-23 relative)
+	for _, days := range []float32{0.03, 0.5, 1, 1.5, 2, 2.03, 30.4, 370, 1000.25} {
+		out.OracleN++
+		got := float64(config.Sweeper{RetentionDays: days}.RetentionDuration())
+		want := float64(days) * 24 * float64(time.Hour)
+		if math.Abs(got-want) > want*1e-6+1000 {
+			for _, pid := range []string{"C13", "C04"} {
+				out.Oracle = append(out.Oracle, OracleFailure{pid, "retention-duration", fmt.Sprintf("retention_days %v gives RetentionDuration %v, expected %v: markers younger than the configured retention would be swept (or older ones kept)", days, time.Duration(got), time.Duration(want)), map[string]any{"days": days}})
+			}
 		}
 	}
 	cnt := 0
@@ -235,6 +249,14 @@ func areaRetention(r *Rng, n int, dir string) (*AreaOut, error) {
 			if a.Sweep > uint64(ts) {
 				out.Oracle = append(out.Oracle, OracleFailure{"C13", "cutoff-guard", fmt.Sprintf("sweep cutoff %d lies after now %d", a.Sweep, ts), a})
 			}
+		}
+	}
+	// C10: a load cutoff below the sweep cutoff is also a feedback loop (sweep, re-load, sweep, ... each commits a
+	// transaction and triggers an upload)
+	for _, f := range append([]OracleFailure{}, out.Oracle...) {
+		if f.Property == "C04" && strings.HasPrefix(f.Clause, "no-bounce") {
+			f.Property, f.Clause = "C10", "sweep-reload-loop/"+f.Clause
+			out.Oracle = append(out.Oracle, f)
 		}
 	}
 	out.Cases = len(cases)
